@@ -209,12 +209,12 @@ func doOp(o lib.Obj, op, p int) string {
 		return fmt.Sprint("sev=", n, s, pan != nil)
 	case 2:
 		err, pan := o.GetError()
-		res := fmt.Sprint("err=", lib.ErrClass(err), "|", lib.ErrText(err), lib.Annotated(err), pan != nil)
+		res := fmt.Sprint("err=", lib.ErrClass(err), "|", lib.ErrDetail(err), lib.Annotated(err), pan != nil)
 		lib.Annotate(err) // the client decorates the error value it received; later errors must not show it
 		return res
 	case 3:
 		s, err, pan := o.Encode()
-		res := fmt.Sprint("enc=", s, "|", lib.ErrClass(err), "|", lib.ErrText(err), lib.Annotated(err), pan != nil)
+		res := fmt.Sprint("enc=", s, "|", lib.ErrClass(err), "|", lib.ErrDetail(err), lib.Annotated(err), pan != nil)
 		lib.Annotate(err)
 		return res
 	case 4:
